@@ -184,8 +184,47 @@ class RefCFG:
                     self.rules.append((n, [self.T("[")] + body(base) + [("N", star), self.T("]")]))
 
 
+FIN_ATOMS = [1, 7, -1, "x", "a", True, None]
+
+
+def finite_reference(schema):
+    """schemas whose instances form a finite set inside a known candidate pool (enum / const with sibling keywords, allOf of closed
+    tuples): the reference is the list of candidates that python jsonschema validates — instance semantics, literally"""
+    import itertools
+    import jsonschema
+    cands = list(FIN_ATOMS) + [[]]
+    for n in (1, 2, 3):
+        cands += [list(t) for t in itertools.product(FIN_ATOMS, repeat=n)]
+
+    def collect(s):
+        if isinstance(s, dict):
+            if "const" in s:
+                cands.append(s["const"])
+            for v in s.get("enum", []) if isinstance(s.get("enum"), list) else []:
+                cands.append(v)
+            for v in s.values():
+                collect(v)
+        elif isinstance(s, list):
+            for v in s:
+                collect(v)
+    collect(schema)
+    val = jsonschema.Draft202012Validator(schema)
+    rb = RefCFG(schema)
+    seen = set()
+    for v in cands:
+        k = ser(v)
+        if k in seen:
+            continue
+        seen.add(k)
+        if val.is_valid(v):
+            rb.rules.append(("ROOT", [rb.T(a) for a in atoms_of_value(v)]))
+    return rb.rules, "ROOT", rb.atoms
+
+
 def reference(schema):
     """returns (rules, start, atoms)"""
+    if schema.get("x-verif-finite"):
+        return finite_reference({k: v for k, v in schema.items() if k != "x-verif-finite"})
     rb = RefCFG(schema)
     defs = schema.get("$defs") or {}
     body = {k: v for k, v in schema.items() if k != "$defs"}
@@ -276,7 +315,39 @@ def gen_schema(rng, depth=0, defs=None):
     return {"anyOf": [gen_schema(rng, depth + 1, defs) for _ in range(rng.randint(2, 3))]}
 
 
+def gen_finite(rng):
+    """finite-language array schemas built by keyword intersection (sibling keywords next to enum/const, allOf of closed tuples)"""
+    A = FIN_ATOMS
+    # finite leaves only (an unbounded integer / string lexeme has no finite atom set)
+    leafs = [{"enum": [1, 7, -1]}, {"enum": ["x", "a"]}, {"type": "boolean"}, {"type": "null"}, {"enum": [1, "x"]}, {"enum": [1, 7]}, {"const": 7}, {"enum": [True, None, "a"]}]
+    form = rng.randint(0, 3)
+    if form == 0:
+        arrs = [[rng.choice(A) for _ in range(rng.randint(0, 3))] for _ in range(rng.randint(2, 4))]
+        s = {"enum": arrs, "type": "array"} if rng.random() < 0.5 else {"type": "array", "enum": arrs}
+        if rng.random() < 0.5:
+            s["items"] = rng.choice(leafs)
+        if rng.random() < 0.3:
+            s["maxItems"] = rng.randint(0, 2)
+    elif form == 1:
+        arr = [rng.choice(A) for _ in range(rng.randint(1, 3))]
+        s = {"const": arr, "type": "array", "items": rng.choice(leafs)} if rng.random() < 0.5 else {"type": "array", "items": rng.choice(leafs), "const": arr}
+    elif form == 2:
+        t1 = {"type": "array", "prefixItems": [rng.choice(leafs) for _ in range(rng.randint(1, 3))], "items": False}
+        t2 = {"type": "array", "prefixItems": [rng.choice(leafs) for _ in range(rng.randint(0, 2))]}
+        if rng.random() < 0.3:
+            t2["minItems"] = rng.randint(0, 2)
+        s = {"allOf": [t1, t2] if rng.random() < 0.5 else [t2, t1]}
+    else:
+        t1 = {"type": "array", "prefixItems": [rng.choice(leafs) for _ in range(rng.randint(1, 2))], "items": rng.choice(leafs), "maxItems": rng.randint(1, 3)}
+        t2 = {"type": "array", "prefixItems": [rng.choice(leafs) for _ in range(rng.randint(0, 3))], "items": False}
+        s = {"allOf": [t1, t2] if rng.random() < 0.5 else [t2, t1]}
+    s["x-verif-finite"] = True
+    return s
+
+
 def gen_case(rng):
+    if rng.random() < 0.18:
+        return gen_finite(rng)
     use_defs = rng.random() < 0.3
     defs = ["n", "t"] if use_defs else None
     s = gen_schema(rng, 0, defs)
@@ -291,6 +362,9 @@ def gen_case(rng):
 
 
 HAND = [
+    {"enum": [[], [1, 7], ["a"]], "type": "array", "x-verif-finite": True},
+    {"const": [1, 7, -1], "type": "array", "items": {"enum": [1, 7, -1]}, "x-verif-finite": True},
+    {"allOf": [{"type": "array", "prefixItems": [{"enum": [1, 7, -1]}, {"enum": ["x", "a"]}], "items": False}, {"type": "array", "prefixItems": [{"enum": [1, 7]}]}], "x-verif-finite": True},
     {"type": "array", "prefixItems": [{"type": "boolean"}, False], "items": {"type": "null"}},
     {"type": "array", "prefixItems": [{"const": 1}, False, {"type": "null"}], "items": {"enum": ["x"]}, "minItems": 1},
     {"type": "object", "properties": {"a": {"const": 1}, "b": {"type": "null"}}, "required": ["a", "b"], "additionalProperties": {"type": "boolean"}, "maxProperties": 2},
